@@ -57,6 +57,7 @@ type c26Env struct {
 	top       bool // scanning the handler's own statement list
 	keyVar    string // loop variable ranging over the key-bearing children of the entry (KeyValues, KeySlicePairs, Patches)
 	nilIsOk   bool   // the response message has no fields: `return nil, nil` is an ordinary success
+	derived   bool   // the entry loop ranges over a local slice the validation loop built (one element per request entry)
 }
 
 func (e *c26Env) clone() *c26Env {
@@ -484,6 +485,7 @@ func (cx *c26Ctx) scan(e *c26Env, stmts []ast.Stmt, p *c26Prog) {
 				if id, ok := v.Value.(*ast.Ident); ok {
 					sub.entry = map[string]bool{id.Name: true}
 				}
+				_, sub.derived = v.X.(*ast.Ident)
 				lp := &c26Prog{}
 				cx.scan(sub, v.Body.List, lp)
 				p.unknown = append(p.unknown, lp.unknown...)
@@ -710,6 +712,18 @@ func (cx *c26Ctx) scanIf(e *c26Env, v *ast.IfStmt, p *c26Prog) bool {
 	if b, ok := v.Cond.(*ast.BinaryExpr); ok && b.Op == token.EQL && f.Str(b.Y) == "nil" {
 		if id, ok := b.X.(*ast.Ident); ok && e.entry[id.Name] && v.Else == nil {
 			return true
+		}
+	}
+	// `if entry.missing != nil { response = append(response, entry.missing); continue }` in the loop over the local slice the
+	// validation loop built: the answer an entry got there (its `early` outcome) is delivered at its place in the request order
+	if b, ok := v.Cond.(*ast.BinaryExpr); ok && e.derived && b.Op == token.NEQ && f.Str(b.Y) == "nil" && v.Else == nil && v.Init == nil {
+		if sel, ok := b.X.(*ast.SelectorExpr); ok {
+			if id, ok := sel.X.(*ast.Ident); ok && e.entry[id.Name] && len(v.Body.List) == 2 {
+				want := "response = append(response, " + f.Str(b.X) + ")"
+				if br, ok := v.Body.List[1].(*ast.BranchStmt); ok && br.Tok == token.CONTINUE && f.Str(v.Body.List[0]) == want {
+					return true
+				}
+			}
 		}
 	}
 	// `if len(requests) == 0 { return &Resp{}, nil }`: same answer as zero loop iterations
